@@ -40,6 +40,9 @@ def scenario(rng, i):
             st["sf"] = rng.sample(files, min(len(files), rng.choice([1, 2])))
         elif r < 0.4:
             st["n"] = True
+        if k > 0 and i % 4 == 1 and not st.get("sf"):
+            # a pattern given in a LATER generation that covers files recorded before: they stay in the packing list
+            st["i"] = gen.path_patterns(cur, rng, k=2) + ["*.tmp"]
         steps.append(st)
         sealed |= set(st["sf"]) if st.get("sf") else set(files)
         r = rng.random()
@@ -66,7 +69,8 @@ def scenario(rng, i):
     victim = rng.choice(gen.all_files(cur))
     old = gen._node(cur, victim)["f"]
     steps.append({"op": "set", "path": victim, "data": (old + "00") if old else "01"})
-    steps.append({"op": "verifypl", "expect": 11})
+    # with patterns in play the altered file may be an ignored one: then only the model judges the outcome
+    steps.append({"op": "verifypl", **({} if any(s.get("i") for s in steps) else {"expect": 11})})
     return {"tree": tree, "steps": steps}
 
 
